@@ -183,6 +183,22 @@ def _decl_cell(cell):
 
 
 def _cell(cell):
+    if cell["ft"] == "tfrec" and not cell.get("_in_subprocess"):
+        # TFRecord needs the real TensorFlow: a fresh interpreter (pool workers are forked with the TF stub loaded)
+        import base64
+        import json
+        import pickle
+        import subprocess
+        import sys
+        r = subprocess.run([sys.executable, "-m", "vtlib.checks.c18", json.dumps(dict(cell, _in_subprocess=True))],
+                           capture_output=True, text=True, timeout=3400, cwd=str(common.VERIF))
+        for line in r.stdout.split("\n"):
+            if line.startswith("RESULT "):
+                return pickle.loads(base64.b64decode(line[7:]))
+        from ..symx import Stats
+        st = Stats()
+        st.inconclusive.append("TFRecord sub-process failed: " + r.stderr[-300:])
+        return st
     if cell.get("declarations"):
         return _decl_cell(cell)
     return explore(lambda e: scenario(e, cell))
@@ -246,3 +262,12 @@ def replay(case):
     except CexFound as c:
         return True, f"reproduced on the real writers/readers with {case['model']}: {c.msg}"
     return False, "not reproduced"
+
+
+if __name__ == "__main__":
+    import base64
+    import json
+    import pickle
+    import sys
+    _st = _cell(json.loads(sys.argv[1]))
+    print("RESULT " + base64.b64encode(pickle.dumps(_st)).decode(), flush=True)
